@@ -27,6 +27,7 @@ type WOp struct {
 	V    []byte `json:"v,omitempty"`
 	N    int    `json:"n,omitempty"` // collapse level / variant / block
 	Sync bool   `json:"sync,omitempty"`
+	D    bool   `json:"d,omitempty"` // commit: keep the batch unwritten until after the next Commit() (pipelined batches)
 	S    []int  `json:"s,omitempty"` // key index list (export)
 	A    int    `json:"a,omitempty"` // tamper argument
 	B    int    `json:"b,omitempty"` // tamper argument
@@ -145,6 +146,7 @@ type world struct {
 	s         *WScript
 	prop      string
 	keys      [][]byte
+	pending   []pendingBatch // C11: batches returned by Commit() that the caller has not written yet
 	kv        *simkv.Store
 	db        storage.StorageAdapter
 	peb       *pebbleEnv
